@@ -81,4 +81,19 @@ BENIGN = [
     dict(name='b-seal-msg-len-var', props=['C14', 'C06', 'C04'],
          edits=[(AEAD, "let tag = self.seal_in_place_detached(&mut buf[..plaintext.len()], aad)?;",
                  "let tag = self.seal_in_place_detached(&mut buf[..msg_len], aad)?;")]),
+    dict(name='b-pskbundle-xnor-form', props=['C15'],
+         edits=[(OPMODE, "if (psk.is_empty() && psk_id.is_empty()) || (!psk.is_empty() && !psk_id.is_empty()) {",
+                 "if psk.is_empty() == psk_id.is_empty() {")]),
+    dict(name='b-pskbundle-len-form', props=['C15'],
+         edits=[(OPMODE, "if (psk.is_empty() && psk_id.is_empty()) || (!psk.is_empty() && !psk_id.is_empty()) {",
+                 "if (psk.len() == 0) == (psk_id.len() == 0) {")]),
+    dict(name='b-pskbundle-early-return', props=['C15'],
+         edits=[(OPMODE, """        if (psk.is_empty() && psk_id.is_empty()) || (!psk.is_empty() && !psk_id.is_empty()) {
+            Ok(PskBundle { psk, psk_id })
+        } else {
+            Err(HpkeError::InvalidPskBundle)
+        }""", """        if psk.is_empty() != psk_id.is_empty() {
+            return Err(HpkeError::InvalidPskBundle);
+        }
+        Ok(PskBundle { psk, psk_id })""")]),
 ]
